@@ -25,6 +25,10 @@ def plan(tier, seed):
     for (pat, pv) in (combos if tier == 'thorough' else rnd.sample(combos, 50)):
         k += 1
         qs.append(stat_query(full_query('C18', 3, pat, pv, perms(3)[k % 6], CONFIGS[k % len(CONFIGS)], nr=(k % 2 == 0), dyn=(k % 3 == 0), nprocs=1 + k % 3), 'C18'))
+    # the user-workspace stack: a first-time call re-initialises every field whatever the previous call left (real p?gstrf_SetupSpace)
+    from props.C14 import alloc_query
+    q = alloc_query('C18', 7)
+    qs.append(q)
     for (pat, pv) in [(0xf, (0, 1)), (0x7, (1, 0)), (0xb, (0, 1))]:
         k += 1
         qs.append(stat_query(fullx_query('C18', 2, pat, pv, (0, 1), CONFIGS[k % 8], trans=k % 3, scen=1, usepr=k % 2), 'C18'))
@@ -37,7 +41,7 @@ META = {
                'probe calls': 'simple driver on every pattern/pivot order n<=2 and 50 sampled (thorough: all) at n=3; the factor / re-factor / reuse sequence at n=2',
                'claim': 'the same functional assertions as C01/C02/C09 hold whatever the earlier history left behind, i.e. the result depends only on the call\'s own arguments'},
     'outside': ['the expander table pointer dexpanders (a dangling non-null value is not producible by any call: it is freed and zeroed in thread_finalize)',
-                'statics of dlamch.c / dlacon.c (dlacon_ re-initialises on kase = 0: not encoded here)', 'the byte-level allocator state `stack` (C14 treats every state of it)',
+                'statics of dlamch.c / dlacon.c (dlacon_ re-initialises on kase = 0: not encoded here)', 'the byte-level allocator state `stack` beyond its re-initialisation by p?gstrf_SetupSpace (C14 treats every state of it)',
                 'bit-identical results (decided up to exact arithmetic, not rounding)'],
     'assumptions': ['as C01 (typed allocator stubs: the real MemInit\'s own re-initialisation of no_expand/ndim is therefore not exercised, its effect is irrelevant to the stubs)'],
     'trusted_base': ['cbmc 6.11', 'goto-instrument 6.11', 'tools/fp2alg.py', 'z3'],
